@@ -84,14 +84,15 @@ def _build_model_uncached(spec):
         rng = np.random.default_rng(spec['dseed'])
         d = rng.random(tuple(spec['shape'])) + 0.1
         os_ = spec['os']
-        return (P.ImagePSF(d, oversampling=os_ if np.isscalar(os_) else tuple(os_), fill_value=spec.get('fill', 0.0)),
+        return (P.ImagePSF(d, flux=q(1.0), oversampling=os_ if np.isscalar(os_) else tuple(os_),
+                           fill_value=spec.get('fill', 0.0)),
                 dict(x='x_0', y='y_0', f=['flux']))
     if n == 'gridded':
         from astropy.nddata import NDData
         rng = np.random.default_rng(spec['dseed'])
         d = rng.random((4, 9, 9)) + 0.1
         nd = NDData(d, meta={'grid_xypos': [(0, 0), (0, 10), (10, 0), (10, 10)], 'oversampling': spec['os']})
-        return P.GriddedPSFModel(nd), dict(x='x_0', y='y_0', f=['flux'])
+        return P.GriddedPSFModel(nd, flux=q(1.0)), dict(x='x_0', y='y_0', f=['flux'])
     if n == 'compound':
         m = Gaussian2D(1, 0, 0, 1.0, 1.3, 0.4) + Gaussian2D(0.5, 0, 0, 2.5, 2.0, -0.2)
         return m, dict(x='x_mean_0', y='y_mean_0', f=['amplitude_0', 'amplitude_1'],
@@ -646,6 +647,17 @@ def run(ctx):
             em.do({'kind': 'mmi', 'shape': [8, 9], 'model': model, 'rows': rows, 'mshape': {'mode': 'kw', 'kw': 5},
                    'bkg': bkg, 'naming': 'native', 'fwhm_col': False, 'disc': 'center', 'os': 10, 'pseed': 1},
                   'units-independent-of-first-row')
+    # unit-ful image-based models whose window (model_shape) is larger than the PSF array: a row
+    # may overlap the image with its window while the PSF footprint lies wholly outside it
+    for model in ({'name': 'imagepsf', 'shape': [5, 5], 'os': 1, 'dseed': 14, 'unit': 'Jy'},
+                  {'name': 'gridded', 'os': 1, 'dseed': 13, 'unit': 'Jy'}):
+        for bkg in (False, True):
+            for rows in ([{'x': -5.0, 'y': 4.0, 'f': 1.0, 'bkg': 0.1, 'ms': 15, 'fwhm': 2.0}],
+                         [{'x': -5.0, 'y': 4.0, 'f': 1.0, 'bkg': 0.1, 'ms': 15, 'fwhm': 2.0},
+                          {'x': 4.0, 'y': 4.0, 'f': 2.0, 'bkg': 0.2, 'ms': 15, 'fwhm': 2.0}]):
+                em.do({'kind': 'mmi', 'shape': [9, 9], 'model': model, 'rows': rows, 'mshape': {'mode': 'kw', 'kw': 15},
+                       'bkg': bkg, 'naming': 'native', 'fwhm_col': False, 'disc': 'center', 'os': 10, 'pseed': 5},
+                      'units-independent-of-first-row')
     # bbox_factor x models with a fixed, non-square bounding box (ignored there) and with a scalable
     # one (every tier): the window is the row's (ny, nx) box either way
     for model, factor in (({'name': 'imagepsf', 'shape': [5, 9], 'os': 1, 'dseed': 21}, 3.0),
